@@ -777,6 +777,16 @@ class NodeFor:
         self.what = what
 
     def evaluate(self, environment):
+        try:
+            return self.evaluateLoop(environment)
+        except CklRuntimeError:
+            # a loop aborted by an error does not leave its variables behind
+            for identifier in self.identifiers:
+                if identifier in environment.getLocalSymbols():
+                    environment.remove(identifier)
+            raise
+
+    def evaluateLoop(self, environment):
         lst = self.expression.evaluate(environment)
         if lst.isInput():
             input_ = lst
